@@ -67,11 +67,17 @@ def gen(repo):
         raise ExtractError("collect_and_prepare: Ordering::Equal arm not found")
     eq = m.group(1)
     # the merge-walk compares the two paths component-wise (Path::cmp), the order both streams are sorted in
-    if "match destination.path().cmp(&dest.path(path)) {" not in cb:
+    if "match destination.path().cmp(&dest.path(path)) {" in cb:
+        meta["merge_cmp"] = "Path::cmp (component-wise)"
+        meta["merge_cmp_component_wise"] = True
+    elif re.search(r"match destination \.path\(\) \.as_os_str\(\) \.cmp\(dest\.path\(path\)\.as_os_str\(\)\)", cb) or "destination.path().as_os_str().cmp(" in cb.replace(" ", ""):
+        # a recognised other comparison: raw strings; Merge.classify (component-wise) is then not the code's control flow
+        meta["merge_cmp"] = "OsStr::cmp (raw string order)"
+        meta["merge_cmp_component_wise"] = False
+    else:
         raise ExtractError("collect_and_prepare: the merge-walk no longer compares `destination.path().cmp(&dest.path(path))` (component-wise Path order)")
     if ".sort_by_file_name()" not in cb:
         raise ExtractError("collect_and_prepare: the destination walk is no longer sorted by file name")
-    meta["merge_cmp"] = "Path::cmp (component-wise)"
     if "node.is_dir() && !destination.file_type().is_dir()" not in eq or "node.is_special()" not in eq:
         raise ExtractError("collect_and_prepare: type-mismatch test has changed")
     if "process_node(path, node, true)?" in eq:
@@ -108,6 +114,9 @@ def gen(repo):
            "   backend/local_destination.rs - do not edit *)",
            "From Verif.C14 Require Import Model.",
            "Definition code_cfg : cfg := mkC %s %s %s." % (b(meta["c_names"]), b(meta["c_exists"]), b(meta["c_sparse_pre"])),
+           "(* the comparison of the merge-walk in collect_and_prepare is Path::cmp (component-wise), the order",
+           "   WalkDir::sort_by_file_name and the node streamer deliver; Model.collect uses pcmp = Order.ncmp *)",
+           "Definition merge_cmp_component_wise : bool := %s." % b(meta["merge_cmp_component_wise"]),
            ""]
     return "\n".join(out), meta
 
